@@ -111,6 +111,14 @@ def main(tier, seed, replay=None):
                 a = c["model"]["init"]
                 c["ops"] = [["observe"], ["jac"], ["set", a], ["observe"], ["jac"], ["ref", a]]
                 cases.append(c)
+    # constructed state vs re-applied parameters, for every rank-deficient family and user thresholds of both signs
+    for fam in RANKDEF:
+        for e in (1e-6, -1e-5, 1e-3):
+            for ctor in ("new", "mrhs_parallel"):
+                c = gen_problem(rng, family=fam, ctor=ctor, eps=e, quant=8)
+                a = c["model"]["init"]
+                c["ops"] = [["observe"], ["jac"], ["set", a], ["observe"], ["jac"], ["ref", a]]
+                cases.append(c)
     nshape = len(cases)
     for i in range(n):
         cases.append(gen(rng, i))
